@@ -305,6 +305,14 @@ impl BudgetEnforcer {
     ///
     /// Returns `Err(BudgetBreach)` as soon as a limit is exceeded.
     pub fn observe(&mut self, ev: &Event) -> Result<(), BudgetBreach> {
+        if self.policy == EnforcingPolicy::PerDocument && matches!(ev, Event::DocumentStart(_)) {
+            // Per-document enforcement: everything restarts at the document boundary,
+            // before this event is counted (it is the first event of the new document).
+            self.report.reset();
+            self.depth = 0;
+            self.containers.clear();
+            self.defined_anchors.clear();
+        }
         self.report.events += 1;
         if self.report.events > self.budget.max_events {
             return Err(BudgetBreach::Events {
@@ -385,12 +393,7 @@ impl BudgetEnforcer {
                 self.handle_alias();
             }
             Event::DocumentStart(_explicit) => {
-                if self.policy == EnforcingPolicy::PerDocument {
-                    self.report.reset();
-                    self.depth = 0;
-                    self.containers.clear();
-                    self.defined_anchors.clear();
-                } else {
+                if self.policy != EnforcingPolicy::PerDocument {
                     self.report.documents += 1;
                     if self.report.documents > self.budget.max_documents {
                         return Err(BudgetBreach::Documents {
